@@ -225,7 +225,13 @@ func runS(dir string, sc Scenario, rec *Rec) {
 		rec.Reached = waitFor(time.Second, func() bool { return drained(w) }) && len(done) == 0
 		time.Sleep(10 * time.Millisecond)
 	case "sending":
-		w.WriteString("4242 Accepted password for bob from 10.0.0.1 port 22 ssh2\n")
+		// one accepted-login variant per channel-capacity value of the scenario (0..3)
+		w.WriteString([]string{
+			"4242 Accepted password for bob from 10.0.0.1 port 22 ssh2\n",
+			"4242 Accepted publickey for bob from 10.0.0.1 port 22 ssh2: ED25519 SHA256:YI+caZKJCNaXgsD0NvRZ2fLaEeF46cEVyadru/SL76o\n",
+			"4242 Accepted publickey for bob from 10.0.0.1 port 22 ssh2: ED25519-CERT SHA256:YI+caZKJCNaXgsD0NvRZ2fLaEeF46cEVyadru/SL76o ID foo@bar.com (serial 0) CA ED25519 SHA256:Pcs5TWfcOSKb7Rw/XyvHfUcaQzmw6HtLrjUoyXuzIj8\n",
+			"4242 Accepted publickey for bob from 10.0.0.1 port 22 ssh2: ED25519-CERT SHA256:YI+caZKJCNaXgsD0NvRZ2fLaEeF46cEVyadru/SL76o and stuff\n",
+		}[sc.Cap%4])
 		w.WriteString("4243 Failed password for bob from 10.0.0.1 port 22 ssh2\n")
 		rec.Reached = waitFor(time.Second, func() bool { return enc.n.Load() == 1 }) && len(done) == 0
 		time.Sleep(30 * time.Millisecond)
